@@ -66,7 +66,7 @@ CHECKS = {
         "with depth to exp(-i w t - g(t)) for uncoupled sites and the closed-system limit against expm.",
    note=TB + "All C16 theorems closed under the global context. Tie: tables of real KTHierarchy objects compared exactly in Coq; "
         "right-hand sides compared exactly on Gaussian-integer inputs. Static tie: harness/translate2.py (template unification, fail-closed) joins the trusted base.",
-   design="7/C16", technique="Coq proof (induction over levels, NoDup/sortedness of the table, ring algebra for the RHS) + exact in-Coq correspondence + statement-level translator (generate_indices, _make_nmp1, _make_Gamma, _convert_2_matrix and the propagate() loop nest regenerated from the source, equivalence lemmas re-proved every run)"),
+   design="7/C16", technique="Coq proof (induction over levels, NoDup/sortedness of the table, ring algebra for the RHS) + exact in-Coq correspondence + statement-level translator (generate_indices, _make_nmp1, _make_Gamma, _convert_2_matrix, the propagate() loop nest and both right-hand sides _ado_self_rhs / _ado_cros_rhs - guards nk*jj >= 0 and jj > 0, the negative-index read, all terms - regenerated from the source, equivalence lemmas to Model/C16.v re-proved every run)"),
  "C05": dict(
    text="Proved in Coq: over the rationals and for arbitrary non-zero conversion factors, a value supplied under u and read under v "
         "is the exact conversion for all 11x11 pairs incl. the reciprocal 'nm' handling; round trip; composition; array elements "
